@@ -473,3 +473,43 @@ def target_path(R, I, tier):
         R.reach_any(f'{label}: a destination is reachable', [s.pc for s in oks])
         R.reach_any(f'{label}: an existing file is reachable', [s.pc for s in oks], z3.Bool('destination_exists'))
         R.samples.append({'case': label, 'paths': len(done), 'ok': len(oks)})
+
+# ------------------------------------------------------------------ key lookup used for signing (the get_keys contract of the SignedRole::new harness)
+def key_lookup(R, I, tier):
+    """Root::key_id / Delegations::key_id return the table id of an entry equal to the signing key (or None when there is none);
+    get_root_keys / get_targets_keys collect exactly the provided keys that have such an entry, under those ids"""
+    KeyC = z3.BitVecSort(8)
+    for holder, struct in (('Root', 'Root'), ('Delegations', 'Delegations')):
+        fn = None
+        for n, fs in I.funcs.items():
+            if n.endswith('>::key_id') and 'schema/mod.rs' in n and fs[0].args.startswith('_1: &' + holder): fn = fs[0]
+        if fn is None: raise Stuck(holder + '::key_id not found')
+        for nent in (0, 1, 2):
+            label = f'{holder}::key_id[{nent} table entries]'
+            st = State(); st.env['fs'] = {}
+            ids = [z3.BitVec(f'tid{i}', 8) for i in range(nent)]; keys = [z3.BitVec(f'tkey{i}', 8) for i in range(nent)]; sk = z3.BitVec('signing_key', 8)
+            if nent > 1: st.pc.append(z3.Distinct(ids))
+            cells = [st.alloc(Adt('tuple', None, {(None, 0): Ref(st.alloc(Obj('keyid', nid=i_))), (None, 1): Ref(st.alloc(Obj('key', content=k_)))})) for i_, k_ in zip(ids, keys)]
+            tbl = Obj('keytable', cells=cells)
+            hv = Adt(struct, None, {(None, F(struct, 'keys')): tbl})
+            def m_tbl_iter(I_, s, fr, c, a, d, de, rb): return Obj('iter', vec=Ref(s.alloc(Obj('vec', elems=list(dr(I_, s, a[0]).d['cells'])))), pos=0, owned=True)
+            def m_tuf_key(I_, s, fr, c, a, d, de, rb): return Obj('key', content=dr(I_, s, a[0]).d['content'])
+            def m_key_eq(I_, s, fr, c, a, d, de, rb): return dr(I_, s, a[0]).d['content'] == dr(I_, s, a[1]).d['content']
+            ms = [(RXc(r'^<&HashMap<Decoded<Hex>, key::Key> as IntoIterator>::into_iter$'), m_tbl_iter), (RXc(r'^<std::collections::hash_map::Iter<.*key::Key> as Iterator>::next$'), stdm.m_iter_next),
+                  (RXc(r'^<dyn sign::Sign as sign::Sign>::tuf_key$'), m_tuf_key), (RXc(r'^<key::Key as PartialEq>::eq$'), m_key_eq), (RXc(r'^<Decoded<Hex> as Clone>::clone$'), stdm.m_clone_deep)] + stdm.STD_MODELS
+            saved = list(I.models); I.models[:0] = ms
+            try:
+                I.push_call(st, fn, [Ref(st.alloc(hv)), Ref(st.alloc(Obj('signer', content=sk)))], None, None)
+                done = []; I.run(st, done.append)
+            finally:
+                I.models[:] = saved
+            R.check_interp_clean(I, label)
+            for s in done:
+                R.paths += 1
+                r = mat(I, s, s.result); dd = discr_of(I, s, r)
+                some = (dd == 1) if not isinstance(dd, int) else z3.BoolVal(dd == 1)
+                rid = dr(I, s, r.fields[('Some', 0)]).d['nid'] if ('Some', 0) in r.fields and (not isinstance(dd, int) or dd == 1) else None
+                exists = z3.Or([k == sk for k in keys] + [z3.BoolVal(False)])
+                R.obligation(f'{label}: Some(id) => the table entry under that id is this very key; None => no entry equals the key', s.pc,
+                             z3.If(some, z3.Or([z3.And(rid == i_, k_ == sk) for i_, k_ in zip(ids, keys)] + [z3.BoolVal(False)]) if rid is not None else z3.BoolVal(False), z3.Not(exists)), group='keys/lookup')
+            R.samples.append({'case': label, 'paths': len(done)})
